@@ -237,7 +237,8 @@ func c01Searches(p *run.Part, tier string) []*seqx.Search {
 			Deadline: dl, Nontrivial: forked, KeepStates: true, OnTransition: c01Transition(p)}
 	}
 	return []*seqx.Search{mk(CfgDef3, "", depth), mk(CfgHash3, "", depth), mk(CfgShared3, "", depth-1), mk(CfgSharedH, "", depth-1),
-		mk(CfgDef3, "+fork12", 2), mk(CfgHash3, "+tri4", 2)}
+		mk(CfgDef3, "+fork12", 2), mk(CfgHash3, "+tri4", 2),
+		mk(CfgDef3, "+ab-merged", depth-1), mk(CfgDef3, "+abc", depth-1), mk(CfgDef3, "+a-spread", depth-1), mk2(mk, depth+2), mkEmpty(mk, CfgDef3, depth-1)}
 }
 
 func init() {
@@ -275,3 +276,11 @@ func init() {
 }
 
 var _ = strings.Join
+
+// mkEmpty: the alphabet with an empty-payload append (and no self/empty/foreign merges, to keep it small).
+func mkEmpty(mk func(cfg *seqx.Config, prefix string, d int) *seqx.Search, cfg *seqx.Config, depth int) *seqx.Search {
+	s := mk(cfg, "", depth)
+	s.Alphabet = WithEmpty(Alphabet(3, false))
+	s.Check = "bfs"
+	return s
+}
